@@ -532,3 +532,52 @@ func posOfBlock(fn *ssa.Function, b *ssa.BasicBlock) string {
 	}
 	return "in block " + b.Comment
 }
+
+// loopIndexFindings: loops that index a slice with a loop-carried integer must
+// step that integer by exactly one, in one direction, on every path to the next
+// iteration; adjusting it inside the body makes the loop visit an element twice
+// (or skip one).
+func loopIndexFindings(fn *ssa.Function) (checked int, bad []string) {
+	for _, l := range loopsOf(fn) {
+		for _, in := range l.header.Instrs {
+			ph, ok := in.(*ssa.Phi)
+			if !ok {
+				break
+			}
+			if b, isB := ph.Type().Underlying().(*types.Basic); !isB || b.Info()&types.IsInteger == 0 {
+				continue
+			}
+			usedAsIndex := false
+			for blk := range l.blocks {
+				for _, x := range blk.Instrs {
+					if ia, isIA := x.(*ssa.IndexAddr); isIA && ia.Index == ssa.Value(ph) {
+						usedAsIndex = true
+					}
+				}
+			}
+			if !usedAsIndex {
+				continue
+			}
+			checked++
+			dir := 0
+			for _, leaf := range backLeaves(ph, l) {
+				bo, isBO := leaf.(*ssa.BinOp)
+				step := 0
+				if isBO && bo.X == ssa.Value(ph) && constIs(bo.Y, "1") {
+					if bo.Op == token.ADD {
+						step = 1
+					}
+					if bo.Op == token.SUB {
+						step = -1
+					}
+				}
+				if step == 0 || (dir != 0 && dir != step) {
+					bad = append(bad, "the index "+ph.Comment+" of a slice-visiting loop is not stepped by exactly one on every path to the next iteration ("+posOfBlock(fn, l.header)+")")
+					break
+				}
+				dir = step
+			}
+		}
+	}
+	return
+}
